@@ -17,6 +17,8 @@ RULE = ("dlgen programs (all attribute types, records, negation, aggregates incl
         "constant spelling, and some output is non-empty; distinct by hash of P.")
 
 DECOR = {
+ "float_association": '.decl dfa{k}(a:float, b:float, c:float)\ndfa{k}(100000000.0, -100000000.0, 1.0).\ndfa{k}(16777216.0, 1.0, 1.0).\ndfa{k}(100000000000000000000.0, 100000000000000000000.0, 0.00000000000000000001).\n.decl dfo{k}(x:float, y:float, z:float, w:float)\n.output dfo{k}\ndfo{k}(a + (b + c), (a + b) + c, a * (b * c), (a * b) * c) :- dfa{k}(a, b, c).\n',
+ "choice_fact_after_rule": '.decl dcs{k}(x:number, y:number)\ndcs{k}(1, 10).\ndcs{k}(2, 20).\n.decl dcf{k}(x:number, y:number) choice-domain x\ndcf{k}(x, y) :- dcs{k}(x, y).\ndcf{k}(1, 11).\ndcf{k}(3, 30).\n.output dcf{k}\n',
  "subtype_union": '.type SubA{k} <: number\n.type SubB{k} <: symbol\n.type SubC{k} <: number\n.type Uni{k} = SubA{k} | SubC{k}\n.decl du{k}(x:Uni{k}, s:SubB{k})\ndu{k}(1, "a").\ndu{k}(-2, "b c").\n.output du{k}\n',
  "adt": '.type Adt{k} = AL{k} {{x:number}} | AB{k} {{l:Adt{k}, r:Adt{k}}} | AN{k} {{}}\n.decl da{k}(a:Adt{k})\nda{k}($AB{k}($AL{k}(1), $AN{k}())).\nda{k}($AL{k}(2)).\n.decl dao{k}(x:number, a:Adt{k})\n.output dao{k}\ndao{k}(x, b) :- da{k}($AB{k}($AL{k}(x), b)).\ndao{k}(x, $AN{k}()) :- da{k}($AL{k}(x)).\n',
  "choice": '.decl dc{k}(x:number, y:number) choice-domain x\ndc{k}(1, 2).\ndc{k}(2, 2).\n.decl dco{k}(x:number)\n.output dco{k}\ndco{k}(x) :- dc{k}(x, 2).\n.decl dcc{k}(x:number, y:number, z:number) choice-domain (x, y), z\ndcc{k}(1, 2, 3).\n.output dcc{k}\n',
